@@ -5,7 +5,7 @@ __CPROVER_requires(__CPROVER_is_fresh(self, sizeof(*self)) && IOS_IN_OK(in) && _
 __CPROVER_requires(1 <= n && n <= GCAP)
 __CPROVER_requires(vec_mpz_pool_n == 0 && vec_mpz_pool_cap == GCAP && __CPROVER_is_fresh(vec_mpz_pool_data[0], GCAP * sizeof(mpz_ptr))
                    && __CPROVER_is_fresh(vec_mpz_pool_cells[0], GCAP * sizeof(__mpz_struct)))
-__CPROVER_assigns(__CPROVER_object_whole(self), IOS_IN_ASSIGNS(in), __tmcg_thrown, vec_mpz_pool_n,
+__CPROVER_assigns(__CPROVER_object_whole(self), IOS_IN_ASSIGNS(in), __tmcg_thrown, vec_mpz_pool_n, ghost_pre_tab, ghost_pre_t,
                   __CPROVER_object_whole(vec_mpz_pool_data[0]), __CPROVER_object_whole(vec_mpz_pool_cells[0]),
                   __CPROVER_object_whole(new_scratch), __CPROVER_object_whole(table_scratch))
 /* C12: whatever the stream contains, construction ends normally or with a standard exception */
@@ -24,7 +24,7 @@ __CPROVER_loop_invariant(self->g.cells == vec_mpz_pool_cells[0] && self->g.data 
 __CPROVER_loop_invariant(ghost_i < i ==> GI(ghost_i) == TOKAT(in, __CPROVER_loop_entry(in->pos), ghost_i))
 __CPROVER_decreases(n - i)
 //@ loop 2
-__CPROVER_assigns(i, __tmcg_thrown, self->fpowm_table_g.size, __CPROVER_object_whole(table_scratch), __CPROVER_object_whole(self->g.data))
+__CPROVER_assigns(i, __tmcg_thrown, self->fpowm_table_g.size, __CPROVER_object_whole(table_scratch), __CPROVER_object_whole(self->g.data), ghost_pre_tab, ghost_pre_t)
 __CPROVER_loop_invariant(i <= GN && i <= TMCG_MAX_FPOWM_N && self->fpowm_table_g.size == i && __tmcg_thrown == 0)
 __CPROVER_decreases(GN - i)
 //@ end
